@@ -84,7 +84,7 @@ fn opnd(name: &str) -> Opnd { Opnd { pre: String::new(), name: name.into(), post
 
 impl Prop for C02 {
   fn id(&self) -> &'static str { "C02" }
-  fn rule(&self) -> String { "operator sequences over {+ - * / % ^ == != < <= > >= && || xor}: all sequences of length <= 3 (3 855), length 4 sampled / exhaustive, type-directed chains up to length 8 (arithmetic inside comparisons inside logic), matrix chains with ** and transpose, unary - and ! on operands; operands are API-bound variables from a pool that makes grouping observable. For each formula e: interpret(e) must equal interpret(fully parenthesised e) and the bottom-up evaluation of the reference tree with one interpreter call per binary node; random explicit parenthesisations are checked against their own tree. Non-trivial = the formula evaluated to a value under the reference grouping (a type error under both groupings is trivial)".into() }
+  fn rule(&self) -> String { "operator sequences over {+ - * / % ^ == != < <= > >= && || xor}: all sequences of length <= 3 (3 855), length 4 sampled / exhaustive, type-directed chains up to length 8 (arithmetic inside comparisons inside logic), matrix chains with ** and transpose, unary - and ! on operands; chains of + - * / over real and imaginary LITERAL operands (3 + 4i * 1i); operands are otherwise API-bound variables (half of the cases: inline literals) from a pool that makes grouping observable. For each formula e: interpret(e) must equal interpret(fully parenthesised e) and the bottom-up evaluation of the reference tree with one interpreter call per binary node; random explicit parenthesisations are checked against their own tree. Non-trivial = the formula evaluated to a value under the reference grouping (a type error under both groupings is trivial)".into() }
   fn assumptions(&self) -> Vec<String> { vec!["reference grouping: unary minus / not / transpose tightest, then ^, then * / % **, then + -, then comparisons, then logic; all binary levels left-associative (specification 6.1)".into()] }
   fn floor(&self, tier: Tier) -> usize { if tier == Tier::Quick { 1500 } else { 15000 } }
 
@@ -101,6 +101,27 @@ impl Prop for C02 {
         for asg in 0..2 {
           let opnds: Vec<Opnd> = (0..=n).map(|i| { let all_logic = ops.iter().all(|o| level(o) == 1); let name = if all_logic { *rng.pick(&BOOLS) } else { NUMS[(i * 3 + asg * 4 + idx) % NUMS.len()] }; opnd(name) }).collect();
           mk_case(&mut out, format!("len={};strat=exhaustive", n), &format!("a{}", asg), opnds, ops.clone(), None);
+        }
+      }
+    }
+    // literal operands, real and imaginary: a spaced `3 + 4i` is a sum of two literals subject to the grammar levels, not one
+    // complex literal; all operator sequences of length 1-3 over + - * /, operand patterns drawn from a static pool
+    let cops = ["+", "-", "*", "/"];
+    for n in 1..=3usize {
+      for idx in 0..4usize.pow(n as u32) {
+        let mut ops = Vec::new(); let mut x = idx;
+        for _ in 0..n { ops.push(s(cops[x % 4])); x /= 4; }
+        let reps = if tier == Tier::Quick { 3 } else { 12 };
+        for r in 0..reps {
+          let mut lr = Rng::keyed(seed, &format!("c02lit{}.{}.{}", n, idx, r));
+          // real literals only where both neighbouring operators are `+` (the other real-complex operators are not defined)
+          let reals = ["3", "2", "0.5", "7"]; let imags = ["4i", "1i", "2i", "1+2i"];
+          let opnds: Vec<Opnd> = (0..=n).map(|i| {
+            let real_ok = (i == 0 || ops[i - 1] == "+") && (i == n || ops[i] == "+");
+            let mut o = opnd(if real_ok && (r + i) % 2 == 0 { *lr.pick(&reals) } else { *lr.pick(&imags) });
+            if lr.chance(1, 8) && !o.name.contains('+') && i == 0 { o.pre = "-".into(); }
+            o }).collect();
+          mk_case(&mut out, format!("len={};strat=complex-literals", n), &format!("r{}", r), opnds, ops.clone(), None);
         }
       }
     }
